@@ -1,8 +1,9 @@
 #!/bin/bash
 # Bring the isolated seed-testing environment (/work/verif-seedtest, /work/repo-seedtest) to the current HEADs.
 set -e
-cd /work/repo-seedtest && git checkout -q -- . && git checkout -q --detach $(git -C /repo rev-parse HEAD)
-cd /work/verif-seedtest && git checkout -q -- . && git clean -fdq -e lean/.lake
+L=${SEED_LANE:-}
+cd /work/repo-seedtest$L && git checkout -q -- . && git checkout -q --detach $(git -C /repo rev-parse HEAD)
+cd /work/verif-seedtest$L && git checkout -q -- . && git clean -fdq -e lean/.lake
 git merge -q main >/dev/null 2>&1 || { git status --short | grep "^UU\|^AA" | awk '{print $2}' | xargs -r git checkout --theirs; git add -A; git commit -qm "merge main"; }
 git log --oneline -1
 ./check --setup 2>&1 | grep -v conda | tail -1
